@@ -97,6 +97,16 @@ class Answer(dict):
         self["setpoint"] = pos
         self["readback"] = pos
 
+    # generated plans compare what they are sent with small ints (`x == 1`, `x != 0`): the answer object stands for
+    # the script's integer k there
+    def __eq__(self, other):
+        return self.k == other if isinstance(other, int) else dict.__eq__(self, other)
+
+    def __ne__(self, other):
+        return not self.__eq__(other)
+
+    __hash__ = None
+
 
 class RCtx:
     def __init__(self, case):
